@@ -26,5 +26,6 @@ func init() {
 	register(&CheckDef{ID: "C06", Gen: genC06, Oracle: oracleC06})
 	register(&CheckDef{ID: "C07", Gen: genC07, Oracle: oracleC07})
 	register(&CheckDef{ID: "C08", Gen: genC08, Oracle: oracleC08})
+	register(&CheckDef{ID: "C09", Gen: genC09, Oracle: oracleC09, Race: true})
 	register(&CheckDef{ID: "C12", Gen: genC12, Oracle: oracleC12, SweepBase: sweepBaseC12, SweepKinds: sweepKindsC12})
 }
